@@ -55,6 +55,7 @@ func parseGroups(doc *yaml.Node, schema Schema, offsetLine, offsetColumn int, co
 			}
 		}
 
+		var seenGroups bool
 		for _, entry := range mappingNodes(node) {
 			if entry.key.ShortTag() != strTag {
 				return nil, ParseError{
@@ -74,6 +75,13 @@ func parseGroups(doc *yaml.Node, schema Schema, offsetLine, offsetColumn int, co
 					Err:  fmt.Errorf("groups value must be a %s, got %s", describeTag(seqTag), describeTag(entry.val.ShortTag())),
 				}
 			}
+			if seenGroups {
+				return nil, ParseError{
+					Line: entry.key.Line,
+					Err:  fmt.Errorf("duplicated key %s", entry.key.Value),
+				}
+			}
+			seenGroups = true
 			for _, group := range unpackNodes(entry.val) {
 				g := parseGroup(group, schema, offsetLine, offsetColumn, contentLines)
 				if _, ok := names[g.Name]; ok {
